@@ -458,6 +458,13 @@ class Repository:
                 f'of the allowed types ({type_names})'
             )
 
+    @staticmethod
+    def _check_adapter_type(adapter_type, expected_type):
+        if not issubclass(adapter_type, expected_type):
+            raise exceptions.ReplicatError(
+                f'{adapter_type.__name__} cannot be used as {expected_type.__name__}'
+            )
+
     def _make_config(self, *, settings=None):
         if settings is None:
             settings = {}
@@ -468,18 +475,21 @@ class Repository:
         hashing_settings = settings.get('hashing', {})
         hashing_settings.setdefault('name', self.DEFAULT_HASHER_NAME)
         hasher_type, hasher_args = adapters.from_config(**hashing_settings)
+        self._check_adapter_type(hasher_type, adapters.HashAdapter)
         config['hashing'] = dict(hasher_args, name=hasher_type.__name__)
 
         # Deduplication params
         chunking_settings = settings.get('chunking', {})
         chunking_settings.setdefault('name', self.DEFAULT_CHUNKER_NAME)
         chunker_type, chunker_args = adapters.from_config(**chunking_settings)
+        self._check_adapter_type(chunker_type, adapters.ChunkerAdapter)
         config['chunking'] = dict(chunker_args, name=chunker_type.__name__)
 
         if (encryption_settings := settings.get('encryption', {})) is not None:
             cipher_settings = encryption_settings.get('cipher', {})
             cipher_settings.setdefault('name', self.DEFAULT_CIPHER_NAME)
             cipher_type, cipher_args = adapters.from_config(**cipher_settings)
+            self._check_adapter_type(cipher_type, adapters.CipherAdapter)
             config['encryption'] = {
                 'cipher': dict(cipher_args, name=cipher_type.__name__)
             }
